@@ -93,7 +93,7 @@ def to_trace(evs):
         full = {"a": a, "t": t, "prev": "", "src": sname(e.get("src", srcs[0])), "off": rk(e["off"]) if "off" in e else 0,
                 "key": bool(e.get("key", False)), "kind": e.get("kind", 0),
                 "offs": {sname(s): 0 for s in srcs}, "file": e.get("file", ""), "n": 0, "err": bool(e.get("err", False)),
-                "fol": e.get("fol", ""), "inc": e.get("inc") or [], "seq": e["seq"]}
+                "fol": e.get("fol", ""), "inc": e.get("inc") or [], "crash": bool(e.get("killed_before", False)), "seq": e["seq"]}
         for s, f, p in e.get("offs", []):
             full["offs"][sname(s)] = rk((f, p))
         if isinstance(e.get("n"), int):
@@ -133,6 +133,35 @@ def validate(lines, tables, srcs, workdir):
     return rep
 
 
+def events_part(pid, V, evs, work, stats, label, what):
+    """Validates hook events recorded by a harness process (zv.Recorder)."""
+    t0 = time.time()
+    lines, tables, srcs = to_trace(evs)
+    rep = validate(lines, tables, srcs, os.path.join(work, "tv-" + label))
+    stats["pipeline_trace_events_" + label] = len(lines)
+    stats["pipeline_trace_instances_" + label] = len(tables)
+    stats["pipeline_trace_restarts_after_kill_" + label] = sum(1 for x in lines if x["a"] == "rs.open" and x["crash"] and x["prev"])
+    stats["pipeline_trace_rejected_" + label] = len(rep["fails"])
+    print("[%s] %s: %d events of %d table instances (%d restarts after a kill) validated against spec/TracePipe.tla in %.1fs, %d rejected"
+          % (pid, what, len(lines), len(tables), stats["pipeline_trace_restarts_after_kill_" + label], time.time() - t0, len(rep["fails"])), flush=True)
+    report(pid, V, rep, lines, label, what)
+    return rep
+
+
+def report(pid, V, rep, lines, label, what):
+    if rep["invariant"]:
+        rp = common.save_replay(pid, "pipe-%s-invariant" % label, {"kind": "pipeline-trace", "what": what, "invariant": rep["invariant"], "tlc": rep["out"]})
+        V.violation(rp, "%s reaches a state in which %s of spec/TracePipe.tla does not hold" % (what, rep["invariant"]))
+    for fl in sorted(rep["fails"], key=lambda x: x["at"])[:6]:
+        ev = lines[fl["at"] - 1]
+        before = [x for x in lines[:fl["at"] - 1] if x["t"] in (ev["t"], ev.get("prev"))][-40:]
+        rp = common.save_replay(pid, "pipe-%s-%d" % (label, fl["at"]), {"kind": "pipeline-trace", "what": what, "event": ev, "spec_state": fl["st"],
+                                                                          "events_of_the_instance_before": before})
+        V.violation(rp, "%s: event %s of %s (%s) is not a step of spec/Pipeline.tla in the state the instance is in: %s"
+                    % (what, ev["a"], ev["t"], json.dumps({k: ev[k] for k in ("src", "off", "key", "kind", "offs", "file", "n", "prev", "crash") if ev.get(k)})[:300],
+                       json.dumps(fl["st"])[:500]))
+
+
 def repo_tests_part(pid, V, pkg, run_re, work, stats, label):
     """Records the tests, validates the trace; a rejected event is a violation
     (the replay holds the event, the specification's state there and the life's
@@ -153,15 +182,5 @@ def repo_tests_part(pid, V, pkg, run_re, work, stats, label):
     stats["repo_test_rejected_" + label] = len(rep["fails"])
     print("[%s] %s %s: exit %d, %d events of %d table instances validated against spec/TracePipe.tla in %.1fs, %d rejected"
           % (pid, pkg, run_re, rc, len(lines), len(tables), time.time() - t0, len(rep["fails"])), flush=True)
-    if rep["invariant"]:
-        rp = common.save_replay(pid, "repotest-%s-invariant" % label, {"kind": "repo-test-trace", "pkg": pkg, "run": run_re, "invariant": rep["invariant"], "tlc": rep["out"]})
-        V.violation(rp, "the execution of %s %s reaches a state in which %s of spec/TracePipe.tla does not hold" % (pkg, run_re, rep["invariant"]))
-    for fl in sorted(rep["fails"], key=lambda x: x["at"])[:6]:
-        ev = lines[fl["at"] - 1]
-        before = [x for x in lines[:fl["at"] - 1] if x["t"] == ev["t"]][-25:]
-        rp = common.save_replay(pid, "repotest-%s-%d" % (label, fl["at"]), {"kind": "repo-test-trace", "pkg": pkg, "run": run_re, "event": ev, "spec_state": fl["st"],
-                                                                              "events_of_the_instance_before": before})
-        V.violation(rp, "%s %s: event %s of %s (%s) is not a step of spec/Pipeline.tla in the state the instance is in: %s"
-                    % (pkg, run_re, ev["a"], ev["t"], json.dumps({k: ev[k] for k in ("src", "off", "key", "kind", "offs", "file", "n", "prev") if ev.get(k)})[:300],
-                       json.dumps(fl["st"])[:500]))
+    report(pid, V, rep, lines, "repotest-" + label, "%s %s" % (pkg, run_re))
     return rep
